@@ -106,3 +106,34 @@ Qed.
 (* cap 0 (nothing is ever evaluated) is outside the fragment *)
 Example ex_cap_zero : e2ecap_status (mkconfig 2 1 s_label s_False h_maxcov 0) cap_text = 1.
 Proof. vm_compute. reflexivity. Qed.
+
+(* ---- the relational model: selections as input ---- *)
+(* candidate ids in target-only mode: 0 = (x,label), 1 = (label,label), 2 = (label,z), 3 = (label,w).
+   [ex_tie_sels]: a fair history that breaks the ties of batch 0 differently from sorted() (it starts with 1,2,3);
+   [ex_bad_sels]: batch 1 re-evaluates candidate 1 although candidate 3 was never evaluated. *)
+Definition ex_step_sels : list (list nat) := [[0; 1; 2]; [3; 0; 1]; [2; 3; 0]; [1; 2; 3]]%nat.
+Definition ex_tie_sels : list (list nat) := [[3; 1; 2]; [0; 2; 3]; [1; 0; 3]; [2; 1; 0]]%nat.
+Definition ex_bad_sels : list (list nat) := [[0; 1; 2]; [0; 1; 2]; [2; 3; 0]; [1; 2; 3]]%nat.
+
+Example ex_rel_instance :
+  fst (cap_sampler cfg_t cap_header (nbatches cfg_t cap_header cap_ps)) = ex_step_sels /\
+  sels_ok cfg_t cap_header cap_ps ex_step_sels = true /\
+  e2ecap_core_sel cfg_t cap_header cap_ps ex_step_sels = e2ecap_run cfg_t cap_text.
+Proof. vm_compute. repeat split. Qed.
+
+(* another tie-breaking: admissible, another table (x vs label now evaluated in batches 1, 2, 3: 1/2, 1, 1/2 -> 1/2), fair counts *)
+Example ex_rel_other_ties :
+  sels_ok cfg_t cap_header cap_ps ex_tie_sels = true /\
+  e2ecap_core_sel cfg_t cap_header cap_ps ex_tie_sels =
+    Some [(nx, s_label, 2 # 4); (s_label, nx, 2 # 4); (s_label, nz, 2 # 4); (s_label, nw, 2 # 4); (nz, s_label, 2 # 4);
+          (nw, s_label, 2 # 4); (s_label, s_label, 4 # 4)] /\
+  map snd (cap_counts_sel cfg_t cap_header ex_tie_sels) = [3; 3; 3; 3]%nat.
+Proof. vm_compute. repeat split. Qed.
+
+Example ex_rel_rejected :
+  sels_ok cfg_t cap_header cap_ps ex_bad_sels = false /\
+  sels_steps cfg_t cap_header cap_ps ex_bad_sels = [true; false; true; true] /\
+  sels_ok cfg_t cap_header cap_ps [[0; 1; 2]; [3; 0; 1]; [2; 3; 0]]%nat = false /\          (* one batch short *)
+  sels_ok cfg_t cap_header cap_ps [[0; 1]; [2; 3]; [0; 1]; [2; 3]]%nat = false /\          (* fewer than cap *)
+  sels_ok cfg_t cap_header cap_ps [[0; 1; 4]; [3; 0; 1]; [2; 3; 0]; [1; 2; 3]]%nat = false.  (* 4 is not a candidate *)
+Proof. vm_compute. repeat split. Qed.
